@@ -1,14 +1,17 @@
 package main
 
-// Monitor-side plumbing: the recording TcpClient, a context whose Done() lets the sender's own
-// goroutine apply the configuration, the mock configuration, and observation of the queue
-// length (under the queue's own lock) and of the background goroutine's exit.
+// Monitor-side plumbing: the recording TcpClient, a context that lets the sender's own
+// goroutine apply the configuration (whichever way its loop observes the context; a hand-over
+// made by that goroutine is the fallback), the mock configuration, and observation of the
+// queue (under the queue's own lock) and of the background goroutine's state and exit.
 
 import (
+	"context"
 	"reflect"
 	"runtime"
 	"strings"
 	"sync"
+	"sync/atomic"
 	"time"
 	"unsafe"
 
@@ -29,6 +32,8 @@ type handover struct {
 	Count    int           //   "
 	Records  []byte        //   " (own copy)
 	RecNil   bool          //   " Records was nil
+	// the scenario's context was already cancelled when the pack was handed over
+	AfterCancel bool
 }
 
 type recClient struct {
@@ -40,6 +45,8 @@ type recClient struct {
 	entered     chan struct{}
 	gateUsed    bool
 	gateExpired bool
+	armed       bool     // the gate blocks the first hand-over made after arm()
+	hc          *hookCtx // queue scenarios: the scenario's context (fallback hook, cancel state)
 }
 
 func newRecClient(mode byte, gated bool) *recClient {
@@ -47,8 +54,20 @@ func newRecClient(mode byte, gated bool) *recClient {
 	if gated {
 		c.gate = make(chan struct{})
 		c.entered = make(chan struct{})
+		c.armed = true
 	}
 	return c
+}
+
+// disarm / arm: the gate must block the scenario's first hand-over, not the hand-over of a
+// priming record (see primeRecord).
+func (c *recClient) disarm() { c.mu.Lock(); c.armed = false; c.mu.Unlock() }
+func (c *recClient) arm()    { c.mu.Lock(); c.armed = true; c.mu.Unlock() }
+
+func (c *recClient) count() int {
+	c.mu.Lock()
+	defer c.mu.Unlock()
+	return len(c.hs)
 }
 
 func (c *recClient) Connect() error { c.mu.Lock(); c.others++; c.mu.Unlock(); return nil }
@@ -59,6 +78,13 @@ func (c *recClient) Send(p pack.Pack, opts ...wnet.TcpClientOption) error {
 
 func (c *recClient) SendFlush(p pack.Pack, flush bool, opts ...wnet.TcpClientOption) error {
 	h := &handover{Flush: flush}
+	firedHere := false
+	if c.hc != nil {
+		// A hand-over made by the sender's own goroutine is as good a place as a context call to
+		// run the on-goroutine callback (the fallback when the loop never touches its context).
+		firedHere = c.hc.trigger("SendFlush")
+		h.AfterCancel = c.hc.isCancelled()
+	}
 	if zp, ok := p.(*pack.ZipPack); !ok {
 		h.NotZip = reflect.TypeOf(p).String()
 	} else if c.mode == 'S' {
@@ -72,7 +98,7 @@ func (c *recClient) SendFlush(p pack.Pack, flush bool, opts ...wnet.TcpClientOpt
 	}
 	c.mu.Lock()
 	c.hs = append(c.hs, h)
-	block := c.gate != nil && !c.gateUsed
+	block := c.gate != nil && c.armed && !c.gateUsed && !firedHere
 	if block {
 		c.gateUsed = true
 	}
@@ -102,44 +128,94 @@ func (c *recClient) snapshot() []*handover {
 	return append([]*handover(nil), c.hs...)
 }
 
-// hookCtx is a context.Context. The sender's background goroutine calls Done() at every loop
-// iteration; the first call runs `first` ON THAT GOROUTINE (used to call the real ApplyConfig
-// without a data race against the loop's unlocked reads of the settings).
+// hookCtx is the context.Context given to the sender. Whatever the sender's background loop
+// calls first on it ON ITS OWN GOROUTINE — Done(), Err(), Deadline() or Value() — runs `first`
+// on that goroutine (used to read the settings and to call the real ApplyConfig without a data
+// race against the loop's unlocked reads of the settings). Calls from any other goroutine
+// (GetInstance itself, context.WithCancel(parent) made by the constructor, the monitor) never
+// run it: the callback takes the package mutex that GetInstance holds. If the loop never
+// touches its context (e.g. it selects on a channel captured by the constructor), the recording
+// client calls trigger() from the first hand-over made by the sender's goroutine (see
+// primeRecord in main.go).
 type hookCtx struct {
 	mu      sync.Mutex
 	done    chan struct{}
 	closed  bool
 	first   func()
+	fired   atomic.Bool
+	via     string // which call ran the callback (written before applied is closed)
 	applied chan struct{}
 }
 
 func newHookCtx(first func()) *hookCtx {
 	h := &hookCtx{done: make(chan struct{}), first: first, applied: make(chan struct{})}
 	if first == nil {
+		h.fired.Store(true)
 		close(h.applied)
 	}
 	return h
 }
-func (h *hookCtx) Deadline() (time.Time, bool)       { return time.Time{}, false }
-func (h *hookCtx) Value(key interface{}) interface{} { return nil }
-func (h *hookCtx) Err() error {
+
+// onSenderGoroutine: the calling goroutine is the sender's background goroutine (its entry
+// function is on the call stack; a goroutine's entry function is never inlined away).
+func onSenderGoroutine() bool {
+	var pcs [64]uintptr
+	n := runtime.Callers(2, pcs[:])
+	fr := runtime.CallersFrames(pcs[:n])
+	for {
+		f, more := fr.Next()
+		if strings.HasSuffix(f.Function, "zip.(*ZipSendProxyThread).run") {
+			return true
+		}
+		if !more {
+			return false
+		}
+	}
+}
+
+// trigger runs the callback once, and only on the sender's goroutine. True when this very call
+// ran it.
+func (h *hookCtx) trigger(via string) bool {
+	if h.fired.Load() || !onSenderGoroutine() {
+		return false
+	}
 	h.mu.Lock()
-	defer h.mu.Unlock()
-	if h.closed {
+	f := h.first
+	h.first = nil
+	h.mu.Unlock()
+	if f == nil {
+		return false
+	}
+	f()
+	h.via = via
+	h.fired.Store(true)
+	close(h.applied)
+	return true
+}
+
+func (h *hookCtx) Deadline() (time.Time, bool) {
+	h.trigger("Deadline")
+	return time.Time{}, false
+}
+func (h *hookCtx) Value(key interface{}) interface{} {
+	h.trigger("Value")
+	return nil
+}
+func (h *hookCtx) Err() error {
+	h.trigger("Err")
+	if h.isCancelled() {
 		return errCanceled
 	}
 	return nil
 }
 func (h *hookCtx) Done() <-chan struct{} {
-	h.mu.Lock()
-	f := h.first
-	h.first = nil
-	h.mu.Unlock()
-	if f != nil {
-		f()
-		close(h.applied)
-	}
+	h.trigger("Done")
 	return h.done
+}
+func (h *hookCtx) isCancelled() bool {
+	h.mu.Lock()
+	defer h.mu.Unlock()
+	return h.closed
 }
 func (h *hookCtx) cancel() {
 	h.mu.Lock()
@@ -150,11 +226,19 @@ func (h *hookCtx) cancel() {
 	h.mu.Unlock()
 }
 
-type canceledErr struct{}
+// waitApplied waits for the on-goroutine callback; false when limit expired first.
+func (h *hookCtx) waitApplied(limit time.Duration) bool {
+	t := time.NewTimer(limit)
+	defer t.Stop()
+	select {
+	case <-h.applied:
+		return true
+	case <-t.C:
+		return false
+	}
+}
 
-func (canceledErr) Error() string { return "context canceled" }
-
-var errCanceled error = canceledErr{}
+var errCanceled = context.Canceled
 
 // newConf is the repository's mock configuration answering GetInt from vals (keys that are
 // not in vals answer the caller's fallback).
@@ -193,6 +277,37 @@ var stackBuf = make([]byte, 1<<20)
 func runGoroutines() int {
 	n := runtime.Stack(stackBuf, true)
 	return strings.Count(string(stackBuf[:n]), "zip.(*ZipSendProxyThread).run(")
+}
+
+// runSleepingInQueueWait: the sender's background goroutine is asleep inside the queue's timed
+// wait (runtime.Stack header "[sleep…]" of the goroutine whose stack holds run and GetTimeout).
+func runSleepingInQueueWait() bool {
+	n := runtime.Stack(stackBuf, true)
+	for _, g := range strings.Split(string(stackBuf[:n]), "\n\n") {
+		if strings.Contains(g, "zip.(*ZipSendProxyThread).run(") {
+			head := g
+			if i := strings.IndexByte(g, '\n'); i >= 0 {
+				head = g[:i]
+			}
+			return strings.Contains(head, "[sleep") && strings.Contains(g, ").GetTimeout(")
+		}
+	}
+	return false
+}
+
+// leftInQueue removes and returns what is still in the queue. Only called after the background
+// goroutine is gone (the monitor is then the only consumer).
+func leftInQueue(q *queue.RequestQueue) []string {
+	var ids []string
+	for {
+		v := q.GetNoWait()
+		if v == nil {
+			return ids
+		}
+		if lp, ok := v.(*pack.LogSinkPack); ok {
+			ids = append(ids, lp.Category)
+		}
+	}
 }
 
 // waitUntil polls cond until it is true or the watchdog expires.
